@@ -88,9 +88,13 @@ def anaEpilogueX64 (text : List Nat) (pc : Nat) : Option (Option RuleX64) :=
   else
     let fromStart := text.take pc
     let toEnd := text.drop pc
-    let prevIsPop := match fromStart.getLast? with
+    let n := fromStart.length
+    let prevIsPop := (match fromStart.getLast? with
       | some b => b &&& 0xf8 == 0x58
-      | none => false
+      | none => false) ||
+      -- `add rsp, imm8` / `add rsp, imm32` right before the jump
+      (decide (n ≥ 4) && (fromStart.drop (n - 4)).take 3 == [0x48, 0x83, 0xc4]) ||
+      (decide (n ≥ 7) && (fromStart.drop (n - 7)).take 3 == [0x48, 0x81, 0xc4])
     some (epilogueScanX64 prevIsPop toEnd 0 none (toEnd.length + 1))
 
 /-- `rule_from_instruction_analysis`: prologue analysis first, then epilogue analysis. -/
